@@ -123,7 +123,7 @@ async def run(ctx):
         ctx.count("empty_expressions")
         if aout[0] != "ok" or aout[1].format_constraints_fulfilled is not True or aout[1].error_message is not None:
             ctx.violation("empty-expression", f"format_constraint_evaluation({empty!r}) {describe(aout)[:200]}; expected fulfilled without message")
-    for i in range(ctx.budget(900, 90_000)):
+    for i in range(ctx.budget(1800, 90_000)):
         depth = rng.choice([0, 1, 2, 2, 3, 3, 4])
         ast = G.gen_fc_only(rng, depth, max_leaves=10 if rng.random() < 0.9 else 16)
         # minimal brackets (precedence decides), flat runs: the documented precedence is part of the property
